@@ -78,6 +78,115 @@ func checkC19(c *Ctx, r *Result, tier string) {
 	}
 	r.Floor("R19a", nCalls, 1)
 
+	// R19a-reflect: every use of the reflect API by the adapter (its Run method and the helpers
+	// it calls) executes under such a recover — reflect panics on nil types, wrong kinds and
+	// arity mismatches before the wrapped function is ever called
+	adapters := map[*ssa.Function]bool{}
+	if fnIface := c.Interface("util", "ECALFunction"); fnIface != nil {
+		for _, m := range []string{"Run", "DocString"} {
+			for _, f := range c.Implementations(fnIface, m) {
+				if c.PkgOf(f) == "stdlib" {
+					adapters[f] = true
+				}
+			}
+		}
+	}
+	callersOf := map[*ssa.Function][]ssa.CallInstruction{}
+	for _, fn := range c.ModFuncs() {
+		if c.PkgOf(fn) != "stdlib" {
+			continue
+		}
+		allInstrs(fn, func(in ssa.Instruction) {
+			if ci, ok := in.(ssa.CallInstruction); ok {
+				if f := ci.Common().StaticCallee(); f != nil && c.modFuncSet[f] && c.PkgOf(f) == "stdlib" {
+					callersOf[f] = append(callersOf[f], ci)
+				}
+			}
+		})
+	}
+	var covered func(fn *ssa.Function, in ssa.Instruction, d int) bool
+	covered = func(fn *ssa.Function, in ssa.Instruction, d int) bool {
+		if ok, _ := recoverCovers(fn, in); ok {
+			return true
+		}
+		if d > 3 || adapters[fn] || len(callersOf[fn]) == 0 {
+			return false
+		}
+		for _, site := range callersOf[fn] {
+			if !covered(site.Parent(), site, d+1) {
+				return false
+			}
+		}
+		return true
+	}
+	// adapter functions: Run/DocString and their static callees in the package
+	inAdapter := map[*ssa.Function]bool{}
+	var addA func(f *ssa.Function)
+	addA = func(f *ssa.Function) {
+		if inAdapter[f] {
+			return
+		}
+		inAdapter[f] = true
+		allInstrs(f, func(in ssa.Instruction) {
+			if ci, ok := in.(ssa.CallInstruction); ok {
+				if g := ci.Common().StaticCallee(); g != nil && c.modFuncSet[g] && c.PkgOf(g) == "stdlib" {
+					addA(g)
+				}
+			}
+			if mc, ok := in.(*ssa.MakeClosure); ok {
+				if g, ok := mc.Fn.(*ssa.Function); ok {
+					_ = g // deferred recover closures are not part of the guarded body
+				}
+			}
+		})
+	}
+	for f := range adapters {
+		if f.Name() == "Run" {
+			addA(f)
+		}
+	}
+	nRefl := 0
+	var afuncs []*ssa.Function
+	for f := range inAdapter {
+		afuncs = append(afuncs, f)
+	}
+	sort.Slice(afuncs, func(i, j int) bool { return c.FuncKey(afuncs[i]) < c.FuncKey(afuncs[j]) })
+	for _, fn := range afuncs {
+		key := c.FuncKey(fn)
+		ord := newOrdinals()
+		allInstrs(fn, func(in ssa.Instruction) {
+			ci, ok := in.(ssa.CallInstruction)
+			if !ok {
+				return
+			}
+			if _, isDefer := in.(*ssa.Defer); isDefer {
+				return
+			}
+			name := ""
+			if ci.Common().IsInvoke() {
+				if n := namedOf(ci.Common().Value.Type()); n != nil && n.Obj().Pkg() != nil && n.Obj().Pkg().Path() == "reflect" {
+					name = "reflect." + n.Obj().Name() + "." + ci.Common().Method.Name()
+				}
+			} else if cn := callName(in); strings.HasPrefix(cn, "reflect.") {
+				name = cn
+			}
+			if name == "" {
+				return
+			}
+			nRefl++
+			site := ord.key(key, "reflect-use", name)
+			pos := c.Pos(c.InstrPos(in))
+			if covered(fn, in, 0) {
+				r.Instance("R19a-reflect", site, pos, "ok", "executes under a deferred recover that assigns the error result (here or in every caller)", true)
+				return
+			}
+			r.Instance("R19a-reflect", site, pos, "finding", name+" outside the recover", true)
+			r.Report(Finding{Rule: "R19a-reflect", Site: site, Pos: pos,
+				Msg: fmt.Sprintf("%s uses %s outside the scope of a recover that turns a panic into the error result: reflect panics on a nil type (an ECAL null given to an interface-typed parameter), a wrong kind or an arity mismatch, and that panic escapes the bridge and kills the interpreter", key, name)})
+		})
+	}
+	r.Floor("R19a-reflect", nRefl, 10)
+
 	// ---- R19b -----------------------------------------------------------------------------------
 	c19Kinds(c, r)
 
